@@ -53,8 +53,8 @@ theorem allP_writeNegative (hdig : ∀ d, d < 10 → P (digitChar d)) (ds : List
 theorem allP_writePositive (hdig : ∀ d, d < 10 → P (digitChar d)) (ds : List Nat) (e : Int) (o : WOpts)
     (hd : Digs 10 ds) (hdp : P o.dp) : AllP P (writePositive ds e o) := by
   unfold writePositive
-  have htr := truncateAndRound_digs ds o hd
-  generalize truncateAndRound ds o = tr at htr
+  have htr := roundPos_digs ds e o hd
+  generalize roundPos ds e o = tr at htr
   obtain ⟨ds', c⟩ := tr
   simp only at htr ⊢
   have hc := allP_chars hdig htr
